@@ -63,7 +63,8 @@ def policy_step(policy, thr):
     return {"k": "none"}
 
 
-def to_scenario(sid, script, policy="none", thr=2, qos="reliable", conn=None, alias_base=40, storage=None, seq=False, auto_ack=False, sample_state=False, params=None):
+def to_scenario(sid, script, policy="none", thr=2, qos="reliable", conn=None, alias_base=40, storage=None, seq=False, auto_ack=False, sample_state=False, params=None,
+                reject=False):
     """script: list of env ops printed by Upstream.tla; returns a harness scenario."""
     steps = [{"a": "connect", "must": True},
              {"a": "openUp", "obj": "U1", "qos": qos, "policy": policy_step(policy, thr), "must": True, "closeTimeoutMs": 3000}]
@@ -90,7 +91,12 @@ def to_scenario(sid, script, policy="none", thr=2, qos="reliable", conn=None, al
                 if d not in aliases:
                     aliases[d] = alias_base + len(aliases) + 1
                 al[d] = aliases[d]
-            steps.append({"a": "ack", "obj": "U1", "seqs": list(op["seqs"]), "aliases": al})
+            st_ack = {"a": "ack", "obj": "U1", "seqs": list(op["seqs"]), "aliases": al}
+            if reject:
+                # the broker acknowledges every chunk but reports a failure for the odd-numbered ones (ProcessFailed = 19): the
+                # result code is the broker's business - numbering, hooks and close totals do not depend on it
+                st_ack["codes"] = [19 if q % 2 == 1 else 1 for q in op["seqs"]]
+            steps.append(st_ack)
         elif a == "close":
             closing = True
             # model guard of CloseCall: every earlier Write/Flush call has returned
